@@ -176,6 +176,8 @@ def gen_scenarios(ctx):
                        "op": ["send", "presence"], "reconnect": True})
         sc.append({"pre": pos, "cause": "socket_write_fails", "layer": 0, "dir": "down", "occ": 0,
                    "op": ["recv", "iq_ping_from_server"], "reconnect": True})
+        sc.append({"pre": pos, "cause": "socket_write_fails", "layer": 0, "dir": "down", "occ": 1,
+                   "op": ["send", "presence"], "reconnect": True, "send_before_loop": True})
     # real causes
     for pos in positions:
         for cause in REAL:
@@ -332,6 +334,12 @@ def run_impl(ctx, scn, seed):
             r = do(0, tuple(f_op), cause=cause, role="lost")
             if workers[0].stuck:
                 return r
+            if scn.get("send_before_loop"):
+                # the network layer already knows the connection is gone, the deferred DISCONNECTED has not been
+                # delivered yet (the layers above still believe in the session): sends in that window are dropped
+                # or refused, and must leave nothing behind that a later connection would trip over
+                do(1, ("send", "presence"), cause=cause, role="lost")
+                do(0, ("send", "iq_ping"), cause=cause, role="lost")
             st, fired = workers[1].run(rig.after_socket_failure, 8.0)
             if st == "done" and fired:
                 notes["fired"] += 1
@@ -1089,6 +1097,8 @@ def oracle(scn, obs, notes):
                              % (i, o["outcome"]))
             elif scn["cause"] in REAL and o["exc"] != REAL[scn["cause"]][3]:
                 probs.append("op %d: expected %s at the caller, got %s" % (i, REAL[scn["cause"]][3], o["exc"]))
+        elif o["outcome"] != "ok" and o["role"] == "lost":
+            pass      # a send on a connection the network layer knows is gone may be dropped or refused
         elif o["outcome"] != "ok":
             probs.append("op %d (%s %s, %s) raised %s although no failure was injected"
                          % (i, o["op"][0], o["op"][1], o["role"], o["exc"]))
